@@ -1588,6 +1588,47 @@ fn all_strings(alphabet: &[u8], len: usize, f: &mut dyn FnMut(&[u8])) {
     }
 }
 
+/// shutdown arriving together with a backlog of valid requests: the session may answer a few more
+/// of them (which of its two ready sources it looks at first is tokio's choice), not the backlog
+pub fn c07_backlog_phase() -> Stats {
+    let mut st = Stats::default();
+    for rtu in [false, true] {
+        for n in [100usize, 400] {
+            let cfg = dense_cfg(rtu, (0, 0, 0));
+            let mut h = ServerHarness::new(&cfg);
+            h.settle();
+            let mut stream = vec![];
+            for i in 0..n {
+                stream.extend(h.frame(0x4000 + i as u16, 1, &read_pdu(3, 0, 2)));
+            }
+            h.io.deliver(&stream);
+            let handle = h.handle.take().unwrap();
+            let mut t = Task::new(async move {
+                let _ = handle.shutdown().await;
+            });
+            let ok = crate::sim::run_until_quiescent(&mut [&mut t, &mut h.task], POLL_BUDGET).is_some();
+            let served = h.io.take_written().len();
+            st.evaluations += 1;
+            st.traces += 1;
+            st.class("shutdown-with-backlog");
+            st.observe(&(rtu, n, served.min(64), h.task.is_done()));
+            let problem = if !ok {
+                Some(("busy-loop".to_string(), "poll budget exceeded".to_string()))
+            } else if !h.task.is_done() {
+                Some(("shutdown-ignored".to_string(), "the session did not end after shutdown".to_string()))
+            } else if served > 64 {
+                Some(("shutdown-ignored:while-requests-are-queued".to_string(), format!("{served} of {n} queued requests were answered after shutdown had been requested (an unbiased choice between the two ready sources answers more than 64 with probability 2^-64)")))
+            } else {
+                None
+            };
+            if let Some((sig, desc)) = problem {
+                st.violation(Violation { signature: sig, summary: format!("{} server session, {n} requests queued when shutdown is requested: {desc}", if rtu { "RTU" } else { "TCP" }), replay: json!({"kind": "c07-backlog"}) });
+            }
+        }
+    }
+    st
+}
+
 pub fn check_c07(tier: &str) -> i32 {
     let mut rep = Report::new(
         "C07",
@@ -1716,6 +1757,8 @@ pub fn check_c07(tier: &str) -> i32 {
             }
         });
     });
+    let st_backlog = c07_backlog_phase();
+    rep.phase("server session: shutdown requested while a backlog of requests is readable", st_backlog, json!({"backlogs": [100, 400]}));
     // over real sockets: a session ended by malformed input leaves the other sessions of the same
     // server untouched and frees its slot
     let st_iso = crate::checks::sessions::garbage_isolation_phase();
